@@ -866,6 +866,8 @@ def _gen_ops():
     op("argmax", lambda a: nd1(a) and nonempty(a) and a.dtype.kind in "fiu" and all(n > 0 for n in a.shape), lambda x, a, r: da.argmax(x, axis=axis(r, a.ndim)), lambda a, r: np.argmax(a, axis=axis(r, a.ndim)))
     op("cumsum", lambda a: nd1(a) and num(a), lambda x, a, r: da.cumsum(x, axis=axis(r, a.ndim)), lambda a, r: np.cumsum(a, axis=axis(r, a.ndim)))
     op("cumprod", lambda a: nd1(a) and flt(a), lambda x, a, r: da.cumprod(x / 4, axis=axis(r, a.ndim)), lambda a, r: np.cumprod(a / 4, axis=axis(r, a.ndim)))
+    op("cumsum-blelloch", lambda a: nd1(a) and num(a), lambda x, a, r: da.cumsum(x, axis=axis(r, a.ndim), method="blelloch"), lambda a, r: np.cumsum(a, axis=axis(r, a.ndim)))
+    op("cumprod-blelloch", lambda a: nd1(a) and flt(a), lambda x, a, r: da.cumprod(x / 4, axis=axis(r, a.ndim), method="blelloch"), lambda a, r: np.cumprod(a / 4, axis=axis(r, a.ndim)))
     op("concat-self", nd1, lambda x, a, r: da.concatenate([x, x * 2 if a.dtype.kind != "b" else x], axis=axis(r, a.ndim)), lambda a, r: np.concatenate([a, a * 2 if a.dtype.kind != "b" else a], axis=axis(r, a.ndim)))
     op("stack-self", lambda a: a.ndim <= 3, lambda x, a, r: da.stack([x, x], axis=r.randrange(a.ndim + 1)), lambda a, r: np.stack([a, a], axis=r.randrange(a.ndim + 1)))
     op("take", lambda a: nd1(a) and nonempty(a), lambda x, a, r: _take(da, x, a, r), lambda a, r: _take(np, a, a, r))
@@ -927,6 +929,10 @@ def _setitem(x, a, rnd):
     return x
 
 
+# programs kept exactly as first generated because a known-finding contract names them by seed
+KNOWN_FINDING_SEEDS = {109919, 109436}
+
+
 def generated_program(seed, depth=4):
     """one random program: a base array (shape, dtype, chunking drawn from `seed`) and up to `depth` operations; returns
     (dask collection, numpy value, description)"""
@@ -934,7 +940,7 @@ def generated_program(seed, depth=4):
     import numpy as np
     import dask_array as da
     rnd = random.Random(seed)
-    shape = rnd.choice([(7,), (12,), (4, 5), (6, 6), (3, 4, 2), (0, 3), (1, 5), (2, 1, 6), (9,), (5, 4)])
+    shape = rnd.choice([(7,), (12,), (4, 5), (6, 6), (3, 4, 2), (0, 3), (1, 5), (2, 1, 6), (9,), (5, 4), (16,), (23,)])
     dt = rnd.choice(["f8", "f8", "i8", "f4", "bool"])
     base = (np.arange(int(np.prod(shape))).reshape(shape) * 7 % 11 - 2)
     base = base.astype(dt) if dt != "bool" else base % 2 == 0
@@ -946,9 +952,10 @@ def generated_program(seed, depth=4):
     steps = 0
     tries = 0
     windowed = False
+    taken = False
     inexact = False
     # results that depend on the order floating-point numbers are added / multiplied in (exact only up to rounding) ...
-    ROUNDS = {"abs-sqrt", "mean", "std", "var", "cumprod", "matmul-T", "tensordot", "outer", "sum", "prod", "cumsum", "map_overlap",
+    ROUNDS = {"abs-sqrt", "mean", "std", "var", "cumprod", "cumprod-blelloch", "cumsum-blelloch", "matmul-T", "tensordot", "outer", "sum", "prod", "cumsum", "map_overlap",
               "swv-sum", "round", "mul-self", "mul-last-col", "isnan-nansum"}
     # ... must not be fed to an operation that is discontinuous in its input (a comparison, a rounding, a cast to
     # integers, an ordering): a difference in the last bit would flip the result, which the property's "within floating
@@ -966,9 +973,14 @@ def generated_program(seed, depth=4):
             continue        # products of many elements overflow, and inf * 0 depends on the order
         if name in ("var", "std") and a.dtype == np.float32 and a.size and float(np.max(np.abs(a))) > 100:
             continue        # E[x^2] - E[x]^2 in float32 on large values cancels down to the rounding of the squares
-        if name in ("reshape-merge", "reshape-split", "ravel") and windowed:
-            # a reshape of the result of a native sliding-window reduction is known finding F52 (its own contract)
+        if name in ("reshape-merge", "reshape-split", "ravel") and (windowed or taken) and seed not in KNOWN_FINDING_SEEDS:
+            # a reshape of an array whose layout optimisation may change (the result of a native sliding-window reduction,
+            # or of a take, whose advertised chunks are not stable) is known finding F52 (its own contract)
             continue
+        if name == "repeat" and taken and seed not in KNOWN_FINDING_SEEDS:
+            continue        # known finding F53 (its own contract): repeat over a take-derived array under optimize-graph False
+        if name == "take":
+            taken = True
         if name == "swv-sum":
             # a sliding window over the result of a native sliding-window reduction is known finding F46 (its own contract,
             # sliding_window_view[over-a-layout-drifting-input]); generated programs take at most one
